@@ -9,6 +9,7 @@ pub mod c03;
 pub mod c04;
 pub mod c05;
 pub mod c06;
+pub mod c07x;
 pub mod c10;
 pub mod c11;
 pub mod c12;
